@@ -304,6 +304,8 @@ pub struct DevState {
     /// dense memory over `rb`: None = untouched
     pub memory: Vec<Option<u32>>,
     pub touched: u64,
+    /// extent of the cells ever stored to (inside the box); `cells()` and hashes only walk this
+    pub dirty: Option<R>,
     /// any write addressed to the device outside `guard` (device coordinates), first offender
     pub guard: Option<R>,
     pub guard_violation: Option<(i32, i32, u64)>,
@@ -364,6 +366,7 @@ impl DevState {
             fault_mid_stream: false,
             memory: vec![None; cells],
             touched: 0,
+            dirty: None,
             guard: None,
             guard_violation: None,
             received_extent: None,
@@ -392,17 +395,16 @@ impl DevState {
     /// (x, y, colour) of all touched cells in row-major order.
     pub fn cells(&self) -> Vec<(i32, i32, u32)> {
         let mut v = Vec::with_capacity(self.touched as usize);
-        if self.rb.is_empty() {
-            return v;
-        }
+        let d = match &self.dirty {
+            Some(d) if self.record_memory => *d,
+            _ => return v,
+        };
         let w = self.rb.w();
-        for (i, c) in self.memory.iter().enumerate() {
-            if let Some(c) = c {
-                v.push((
-                    (self.rb.x0 + i as i64 % w) as i32,
-                    (self.rb.y0 + i as i64 / w) as i32,
-                    *c,
-                ));
+        for y in d.y0..d.y1 {
+            for x in d.x0..d.x1 {
+                if let Some(c) = self.memory[((y - self.rb.y0) * w + (x - self.rb.x0)) as usize] {
+                    v.push((x as i32, y as i32, c));
+                }
             }
         }
         v
@@ -423,6 +425,7 @@ impl DevState {
             *c = None;
         }
         self.touched = 0;
+        self.dirty = None;
     }
 
     #[inline]
@@ -438,6 +441,10 @@ impl DevState {
             }
         }
         if self.record_memory && self.rb.contains(x, y) {
+            match &mut self.dirty {
+                Some(d) => d.grow(x, y),
+                None => self.dirty = Some(R::new(x, y, x + 1, y + 1)),
+            }
             let idx = ((y - self.rb.y0) * self.rb.w() + (x - self.rb.x0)) as usize;
             let cell = &mut self.memory[idx];
             if cell.is_none() {
@@ -636,6 +643,13 @@ impl DevState {
         let vis = ra.intersect(&self.rb);
         if vis.is_empty() || !self.record_memory {
             return;
+        }
+        match &mut self.dirty {
+            Some(d) => {
+                d.grow(vis.x0, vis.y0);
+                d.grow(vis.x1 - 1, vis.y1 - 1);
+            }
+            None => self.dirty = Some(vis),
         }
         let w = self.rb.w();
         for y in vis.y0..vis.y1 {
